@@ -18,7 +18,7 @@ pub fn run(run: &mut Run) {
     run.assumptions = vec!["the ascending-order twin is the reference (its own correctness is C01's subject)".into()];
     run.min_sigs = 20;
     let thorough = run.thorough();
-    let n: u64 = if thorough { 40_000 } else { 3_000 };
+    let n: u64 = if thorough { 40_000 } else { 10_000 };
     let seed = run.seed;
     let rc = run.replay_case();
     let verbose = rc.is_some();
